@@ -180,6 +180,8 @@ let rec value_of (x : sexp) : value =
   match x with
   | L [A "int"; A n] -> VInt (z_of_int (int_of_string n))
   | L [A "bool"; A b] -> VBool (b = "1")
+  | L [A "float"; A n] -> VFloat (Some (z_of_int (int_of_string n)))
+  | L [A "nan"] -> VFloat None
   | L [A "str"; A h] -> VStr (coq_string (unhex h))
   | L [A "unit"] -> VUnit
   | L [A "ref"; v] -> VRefV (value_of v)
